@@ -202,6 +202,7 @@ impl BDF {
             let guess = hinit(
                 f, x, &y, direction, &f0, &mut f1, &mut y1, 1, hmax, &atol, &rtol,
             );
+            evals.ode += 1;
             // Ensure x + h isn't larger than xend
             let diff = xend - x;
             let max_h = diff.abs();
